@@ -47,6 +47,16 @@ var vC04Catalogue = []vComp{
 		{regs: []vReg{{"MOUNT", "/A", "", "", ""}}, mounts: []int{1}},
 		{regs: []vReg{{"GET", "/Bc", "s", "", ""}, {"GET", "/d/", "s", "", ""}}},
 	}, names: nil, lens: []int{2, 4, 5}, methods: []string{"GET"}},
+	// prefixes spelled with a trailing slash, children spelled without a leading one
+	/* 7*/ {apps: []vCompApp{
+		{regs: []vReg{{"MOUNT", "v", "", "", ""}, {"GET", "/g/w", "s", "", ""}}, mounts: []int{1}},
+		{regs: []vReg{{"GET", "x", "s", "", ""}, {"USE", "y/", "n", "", ""}, {"GET", "/y/z", "s", "", ""}}},
+	}, names: nil, lens: []int{4, 6, 7, 8}, methods: []string{"GET"}, grp: "/g/"},
+	/* 8*/ {apps: []vCompApp{
+		{regs: []vReg{{"MOUNT", "/a/", "", "", ""}}, mounts: []int{1}},
+		{regs: []vReg{{"MOUNT", "b", "", "", ""}, {"GET", "c", "s", "", ""}}, mounts: []int{2}},
+		{regs: []vReg{{"GET", "d", "s", "", ""}}},
+	}, names: nil, lens: []int{4, 6, 7}, methods: []string{"GET"}},
 }
 
 type vC04World struct {
@@ -78,6 +88,19 @@ func vSubPath(p string) string {
 		return "/" + p
 	}
 	return p
+}
+
+func vJoinPath(prefix, path string) string {
+	if path == "" {
+		return prefix
+	}
+	for len(prefix) > 0 && prefix[len(prefix)-1] == '/' {
+		prefix = prefix[:len(prefix)-1]
+	}
+	if path[0] != '/' {
+		path = "/" + path
+	}
+	return prefix + path
 }
 
 // VH_C04_mount: case = compIndex*4 + cfgIndex.
@@ -158,6 +181,39 @@ func VH_C04_mount(caseID int) {
 	buildB(0, appB, true)
 	appB.startupProcess()
 
+	// ---- world C: flat registration on the root app under the spelled-out full path
+	// (prefix and path joined by the documented rule: the prefix loses its trailing slashes, the
+	// path gets a leading slash, an empty path is the prefix itself)
+	wc := &vC04World{names: comp.names, behs: wa.behs}
+	appC := vNewApp(cfg)
+	var buildC func(ai int, prefix string, root bool)
+	buildC = func(ai int, prefix string, root bool) {
+		mi := 0
+		for ri, r := range comp.apps[ai].regs {
+			if r.method == "MOUNT" {
+				pre := prefix
+				if ai == 0 && comp.grp != "" {
+					pre = vJoinPath(pre, comp.grp)
+				}
+				buildC(comp.apps[ai].mounts[mi], vJoinPath(pre, r.path), false)
+				mi++
+				continue
+			}
+			id := ids[[2]int{ai, ri}]
+			path := r.path
+			if !root {
+				path = vJoinPath(prefix, vSubPath(path))
+			}
+			if r.method == "USE" {
+				appC.Use(path, wc.handler(id))
+			} else {
+				appC.Add([]string{r.method}, path, wc.handler(id))
+			}
+		}
+	}
+	buildC(0, "", true)
+	appC.startupProcess()
+
 	method := comp.methods[vChoice("method", len(comp.methods))]
 	n := comp.lens[vChoice("plen", len(comp.lens))]
 	p := vString("path", n)
@@ -165,6 +221,15 @@ func VH_C04_mount(caseID int) {
 
 	fa := vDo(appA, method, p)
 	fb := vDo(appB, method, p)
+	fc := vDo(appC, method, p)
+	vObserve("traceC", string(wc.trace))
+	vAssert(string(wb.trace) == string(wc.trace), "group-same-handlers-as-full-paths")
+	vAssert(fb.Response.StatusCode() == fc.Response.StatusCode(), "group-same-status-as-full-paths")
+	if string(wb.trace) == string(wc.trace) && len(wb.params) == len(wc.params) {
+		for k := range wb.params {
+			vAssert(wb.params[k] == wc.params[k], "group-same-params-as-full-paths")
+		}
+	}
 
 	vObserve("traceA", string(wa.trace))
 	vObserve("traceB", string(wb.trace))
